@@ -22,6 +22,7 @@ RULE = ("strings: corpus/C18.json (inputs of repaired defects) first, then str(E
         "transform_to_spatial_orbitals) and of generated expressions (every "
         "tensor class, spin labels, numbered indices, orbital-energy "
         "fractions, negative / rational / sqrt prefactors, powers, symbols, "
+        "tensors with an empty upper or lower index group, "
         "deltas, F/Fd, NO groups) plus a malformed stream (character-level "
         "mutations of valid strings); a case is non-trivial if the string "
         "has at least two objects; distinct = distinct string")
@@ -149,6 +150,29 @@ def corpus_exprs(ctx):
             if item.get("symden"):
                 E = E.expand().use_symbolic_denominators()
             out.append((lab, E))
+        elif "tensors" in item:
+            prod = S(item.get("coef", 1))
+            for kind, name, up, lo in item["tensors"]:
+                up = get_symbols(up) if up else []
+                lo = get_symbols(lo) if lo else []
+                if kind == "nonsym":
+                    prod *= NonSymmetricTensor(name, up)
+                else:
+                    prod *= U.CLASS[kind](name, up, lo)
+            out.append((lab, Expr(prod)))
+        elif item["derive"][0] in ("mvp", "trans_moment_space"):
+            kind, var, order, space, idx = item["derive"]
+            gs = gs or adcgen.GroundState(adcgen.Operators())
+            isr = adcgen.IntermediateStates(gs, variant=var)
+            if kind == "mvp":
+                E = Expr(adcgen.SecularMatrix(isr).mvp(
+                    adc_order=order, space=space, indices=idx), real=True)
+                E.substitute_contracted()
+            else:
+                E = Expr(adcgen.Properties(isr).trans_moment_space(
+                    order, space), real=True)
+            ROOT_TARGETS[lab] = idx
+            out.append((lab, E))
         else:
             kind, order, space, idx = item["derive"]
             gs = gs or adcgen.GroundState(adcgen.Operators())
@@ -213,6 +237,22 @@ def derivation_exprs(ctx, quick):
             spatial=("iajb", ("aaaa", "aaaa")))
     add("t2_2", gs.amplitude(2, "pphh", "ijab"),
         spatial=("ijab", ("abab", "abab")))
+    # IP / EA: amplitude vectors and operator matrices with an empty upper or
+    # lower index group (Y^{}_{j}, Y^{a}_{}, d^{}_{q}, d^{p}_{})
+    for var, sp, ix in (("ip", "h", "i"), ("ea", "p", "a")):
+        isr_v = adcgen.IntermediateStates(gs, variant=var)
+        m_v = adcgen.SecularMatrix(isr_v)
+        prop = adcgen.Properties(isr_v)
+        for order in ((0, 1) if quick else (0, 1, 2)):
+            lab = f"mvp{order}_{var}_{sp}"
+            ROOT_TARGETS[lab] = ix
+            E = Expr(m_v.mvp(adc_order=order, space=sp, indices=ix), real=True)
+            E.substitute_contracted()
+            add(lab, E.sympy)
+        for order in (0, 2):
+            lab = f"tm{order}_{var}_{sp}"
+            ROOT_TARGETS[lab] = ""
+            add(lab, prop.trans_moment_space(order, sp))
     if not quick:
         add("E3", gs.energy(3), spatial=("", ("", "")))
         add("M2_ph_ph", m.isr_matrix_block(2, "ph,ph", ("ia", "jb")),
@@ -257,6 +297,13 @@ def rnd_tensor(rng, lib_only=True):
                           [tn.left_adc_amplitude, tn.right_adc_amplitude])
         n = rng.randint(1, 3)
         idx = rnd_indices(rng, 2 * n, spin)
+        r = rng.random()
+        if r < 0.12:      # 1h / 2h1p ... vectors: empty upper group
+            return Amplitude(name, [], idx[n:])
+        if r < 0.24:      # empty lower group
+            return Amplitude(name, idx[:n], [])
+        if r < 0.30:
+            return Amplitude(name, idx[:n - 1], idx[n - 1:])
         return Amplitude(name, idx[:n], idx[n:])
     if k < 0.45:     # antisymmetric
         name = rng.choice([tn.eri, tn.fock, tn.operator, tn.gs_density + "2",
@@ -265,6 +312,9 @@ def rnd_tensor(rng, lib_only=True):
         idx = rnd_indices(rng, nu + nl, spin)
         if name in (tn.eri, tn.fock) and nu != nl:
             nl = nu          # Expr(real=True) needs square V / f
+        if name not in (tn.eri, tn.fock) and rng.random() < 0.2:
+            # one-operator strings: d^{}_{q}, d^{p}_{}
+            nu, nl = rng.choice([(0, 1), (1, 0), (0, 2), (2, 0)])
         idx = rnd_indices(rng, nu + nl, spin)
         return AntiSymmetricTensor(name, idx[:nu], idx[nu:])
     if k < 0.6:      # symmetric: Coulomb, D, others
@@ -275,6 +325,10 @@ def rnd_tensor(rng, lib_only=True):
         nu = rng.randint(1, 2)
         idx = rnd_indices(rng, 2 * nu, spin)
         bks = -1 if name == tn.sym_orb_denom else 0
+        if name != tn.sym_orb_denom and rng.random() < 0.15:
+            if rng.random() < 0.5:
+                return SymmetricTensor(name, [], idx[nu:])
+            return SymmetricTensor(name, idx[:nu], [])
         return SymmetricTensor(name, idx[:nu], idx[nu:], bks)
     if k < 0.8:      # non-symmetric
         name = rng.choice([tn.orb_energy, "n", "w2", "K"])
@@ -401,6 +455,20 @@ def fixed_exprs():
         V * x ** 2 * 3, NO(Fd(a) * F(i)) * NO(Fd(b) * F(j)), Fd(p),
         F(p) * V, V * sqrt(6) / 12, V * t * x / (3 * sqrt(2)),
         D, -V * D, D * D.subs({i: k}) * V / 4, S(0), S(1),
+        Amplitude(tn.right_adc_amplitude, (), (j,)) *
+        AntiSymmetricTensor(tn.fock, (i,), (j,)),
+        Amplitude(tn.right_adc_amplitude, (b,), ()) *
+        AntiSymmetricTensor(tn.fock, (a,), (b,)) / 2,
+        Amplitude(tn.left_adc_amplitude, (), (i,)) *
+        AntiSymmetricTensor(tn.operator, (), (i,)),
+        Amplitude(tn.left_adc_amplitude, (a,), ()) *
+        AntiSymmetricTensor(tn.operator, (a,), ()),
+        Amplitude(tn.right_adc_amplitude, (a,), (i, j)) ** 2,
+        Amplitude(tn.gs_amplitude + "1", (), (i, j)) *
+        SymmetricTensor(tn.coulomb, (), (i, j)) -
+        SymmetricTensor(tn.coulomb, (a, b), ()) *
+        AntiSymmetricTensor("A", (ia, jb), ()),
+        NonSymmetricTensor("n", ()) * Amplitude(tn.right_adc_amplitude, (), ()),
         AntiSymmetricTensor(tn.eri, (i3, j), (a12, b)) *
         Amplitude(tn.gs_amplitude + "1", (aa, bb), (ia, jb)),
         AntiSymmetricTensor(tn.operator, (p,), (q,)) * Fd(p) * F(q),
